@@ -458,8 +458,11 @@ def h5_md(draw, n):
         if kind == "text":
             vals = draw(st.lists(_H5TEXT, min_size=n, max_size=n))
         elif kind == "int":
+            # (integers no double can hold: 2**53 + 1 and beyond)
             vals = draw(st.lists(st.one_of(
-                st.integers(-5, 5), st.integers(-2 ** 63, 2 ** 63 - 1)),
+                st.integers(-5, 5), st.integers(-2 ** 63, 2 ** 63 - 1),
+                st.sampled_from([2 ** 53 + 1, -(2 ** 53) - 1, 2 ** 63 - 1,
+                                 -2 ** 63, 10 ** 17 + 1, 2 ** 62 + 3])),
                 min_size=n, max_size=n))
         elif kind == "float":
             vals = draw(st.lists(st.floats(allow_nan=False,
